@@ -99,10 +99,9 @@ void Arena::reset(ResetPolicy reset_policy) noexcept {
     ManagedBlock* current = first;
 
     if (first == &_arena_zero_block) {
-      return;
+      current = nullptr;
     }
-
-    if (has_static_block()) {
+    else if (has_static_block()) {
       current = current->next;
       first->next = nullptr;
     }
